@@ -161,15 +161,16 @@ def p_template_depth(text):
     return max_adjacent(re.compile(r"(?<!\w)%s[ \t]*<[ \t]*" % ID), text) > TEMPLATE_DEPTH[BUILD_KIND[0]]
 
 
-EXPR_DEPTH = {"hooked": 50000, "asan": 4000}     # the sanitizer build has larger stack frames
+EXPR_DEPTH = {"hooked": 15000, "asan": 1200}     # the sanitizer build has larger stack frames
 TEMPLATE_DEPTH = {"hooked": 100, "asan": 45}
 MACRO_DEPTH = {"hooked": 1000, "asan": 300}
 BUILD_KIND = ["hooked"]
 
 
 def p_expr_depth(text):
-    """A constant expression chaining more than 50000 binary operators on one line (4000 under the
-    sanitizer build, whose frames are larger)."""
+    """An expression chaining more than 15000 binary operators on one line (1200 under the sanitizer
+    build, whose frames are larger).  Measured on HEAD 3c7366c: parse_file dies at 16356 operators of
+    `int x = 1+1+...` / an enumerator (CPPExpression::output), at 86570 in #if; interrogate at > 120000."""
     n = EXPR_DEPTH[BUILD_KIND[0]]
     return any(len(ln) > 2 * n and max(ln.count(c) for c in "+-*|&") > n for ln in text.split("\n"))
 
@@ -188,6 +189,32 @@ def p_array_dims(text):
     return max_adjacent(re.compile(r"\[[^\][\n]{0,8}\][ \t]*"), text) > 300
 
 
+SELF_TOK = re.compile(r"\b(struct|class|union)\s+(\w+)\s*(:[^{;]*)?\{|(\{)|(\})|(?:\b(static|typedef|friend|using)\s+)?\b(\w+)\s+(\w+)\s*(?:\[[^\]\n]*\]\s*)*;")
+
+
+def p_self_containing(text):
+    """A class has a non-static data member (possibly an array) whose type is an enclosing class that
+    is still being defined, or a member class derived from one (an incomplete-type member)."""
+    if len(text) > 200000:
+        return False
+    stack = []
+    for m in SELF_TOK.finditer(text):
+        if m.group(1):
+            names = {n for n in stack if n}
+            if m.group(3) and names & set(re.findall(r"\w+", m.group(3))):
+                return True
+            stack.append(m.group(2))
+        elif m.group(4):
+            stack.append(None)
+        elif m.group(5):
+            if stack:
+                stack.pop()
+        elif m.group(7) and not m.group(6):
+            if m.group(7) in {n for n in stack if n}:
+                return True
+    return False
+
+
 CLASSES = [
     ("C15-macro-self-recursion", p_macro_self_recursion),
     ("C15-macro-nesting-depth", p_macro_nesting),
@@ -198,6 +225,8 @@ CLASSES = [
     ("C15-expr-depth-recursion", p_expr_depth),
     ("C15-array-dims-cubic", p_array_dims),
     ("C15-const-arith-ub", p_arith_ub),
+    ("C15-self-containing-class", p_self_containing),
+    ("C15-diagnostics-quadratic", lambda text: text.count("#error") + text.count("#warning") > 10000),
 ]
 
 
@@ -330,6 +359,44 @@ def edge_inputs(tier):
                            b"#define \xff 1\n", b"#if \xff\n#endif\n", b"#include \"\xff\"\n", b"\x80\x81\x82", b"int x = '\x80';\n", b"\x1b[0m", b"\x7f", b"\x01\x02\x03",
                            b"R\"\xff(a)\xff\"", b"#if 1 \x00 2\n#endif\n", b"#define f(x\xff) x\nf(1)\n", bytes(range(1, 256)), bytes(range(255, 0, -1))]):
         add("byte%d" % i, b)
+    # .N command files next to the source (interrogate reads t.N when given t.h)
+    for i, (src, cmds) in enumerate([
+            ("struct { int q; } g;\n", "forcetype decltype(g)\n"),
+            ("struct A {\n  struct { int q; } anon;\n  enum { X } e;\n};\n", "forcetype decltype(A::anon)\nforcetype decltype(A::e)\n"),
+            ("struct A { int q; };\n", "forcetype\nforcetype \nrenametype\nrenametype A\ndefconstruct\ndefconstruct A\nignoretype\nforceinclude\nforceinclude \"\nforceinclude <\n"),
+            ("struct A { int q; };\n", "forcetype B<\nforcetype A::\nforcetype ::\nforcetype A B C\nforcetype decltype(\nforcetype decltype(nothing)\nrenametype decltype(A) X\n"),
+            ("struct A { int q; };\ntypedef A T;\n", "forcetype T\nforcetype const A\nforcetype A*\nforcetype A&\nforcetype A[3]\nforcetype int\nforcetype void\nforcetype auto\nforcetype A(*)(A)\n"),
+            ("struct A { int q; };\n", "forcetype A"),                      # last line without newline
+            ("struct A { int q; };\n", "# only a comment\n\n   \n\t#x\n"),
+            ("template<class T> struct V { T t; };\n", "forcetype V<int>\nforcetype V<V<int> >\nforcetype V<\nforcetype V<>\nforcetype V<1>\nrenametype V<int> VInt\n")]):
+        add("ncmd%d" % i, src, {"t.N": cmds})
+    # type-producing constructs whose operand cannot be typed / named
+    for i, t in enumerate(["decltype(nothing) v;", "typedef decltype(nothing) T;", "void f(decltype(nothing) a);", "decltype(nothing) *p;",
+                           "decltype(f()) v;", "decltype(a.b) v;", "decltype(a->b) v;", "decltype(*p) v;", "decltype(a[1]) v;", "decltype(1+) v;",
+                           "decltype() v;", "decltype( v;", "decltype(nullptr) v;", "decltype(\"s\") v;", "decltype(1, nothing) v;",
+                           "decltype(nothing + 1) v;", "decltype(-nothing) v;", "decltype(nothing ? 1 : 2) v;", "decltype(1 ? nothing : 2) v;",
+                           "decltype(sizeof(nothing)) v;", "decltype((nothing)) v;", "decltype(decltype(nothing)) v;", "decltype(auto) v = 1;",
+                           "struct S { decltype(nothing) m; };", "template<class T> decltype(T::x) g();", "using U = decltype(nothing);",
+                           "enum E : decltype(nothing) { A };", "struct D : decltype(nothing) {};", "int a[sizeof(decltype(nothing))];",
+                           "__underlying_type(int) u;", "__underlying_type(nothing) u;", "__underlying_type() u;", "typeof(nothing) t;",
+                           "int x = sizeof(nothing);", "int x = sizeof(nothing::type);", "int x = alignof(nothing);", "int x = sizeof...(nothing);",
+                           "int x = noexcept(nothing);", "int x = typeid(nothing).name();", "int x = __is_pod(nothing);", "int x = __is_base_of(nothing, int);",
+                           "typename nothing::type v;", "nothing::type v;", "::nothing v;", "nothing<int> v;", "nothing<int>::type v;",
+                           "template<class T> struct X { typename T::type v; decltype(T()) w; };\nX<int> xi;", "auto f() -> decltype(nothing);",
+                           "auto v = nothing;", "auto [a, b] = nothing;", "static_assert(nothing, \"m\");", "static_assert(sizeof(nothing) == 1, \"m\");",
+                           "enum E { A = nothing };", "enum E { A = sizeof(decltype(nothing)) };", "int a[nothing];", "int f(int = nothing);",
+                           "template<int N = nothing> struct Y {};", "template<class T = decltype(nothing)> struct Z {};"]):
+        add("ty%d" % i, t + "\n")
+        add("ty-pub%d" % i, "struct Pub%d {\n__published:\n  int keep;\n};\n%s\n" % (i, t))
+    # classes that contain themselves (incomplete-type members)
+    for i, t in enumerate(["struct A {\n__published:\n  A a;\n};\n", "struct A {\n  A a;\n__published:\n  int f();\n};\n",
+                           "struct A {\n__published:\n  struct B : A { int z; } b;\n};\n", "struct A {\n__published:\n  A a[2];\n};\n",
+                           "class A {\npublic:\n  A a;\n};\nclass C {\n__published:\n  A x;\n};\n",
+                           "struct A;\nstruct B {\n__published:\n  A a;\n};\nstruct A {\n__published:\n  B b;\n};\n",
+                           "struct A {\n__published:\n  static A s;\n  A *p;\n  A &r;\n  A f();\n};\n",
+                           "template<class T> struct W {\n__published:\n  W<T> w;\n};\nW<int> v;\n",
+                           "union U {\n__published:\n  U u;\n  int i;\n};\n", "struct A {\n__published:\n  const A a;\n  typedef A Self;\n  Self s;\n};\n"]):
+        add("selfc%d" % i, t)
     # depth / length
     n = 5000
     deep = {
@@ -346,6 +413,10 @@ def edge_inputs(tier):
         "template-nest-150": "template<class T> struct A {};\n" + "A<" * 150 + "int" + " >" * 150 + " v;\n",
         "template-nest-60": "template<class T> struct A {};\n" + "A<" * 60 + "int" + " >" * 60 + " v;\n",
         "template-open-5000": "template<class T> struct A {};\n" + "A<" * n + "\n",
+        "elif-chain-4500": "#if 0\n" + "#elif 0\n" * 4500 + "#endif\nint after;\n",
+        "elif-chain-100000": "#if 0\n" + "#elif 0\n" * 100000 + "#elif 1\nint kept;\n#else\nint no;\n#endif\n",
+        "elifdef-chain-20000": "#ifdef X\n" + "#elifdef X\n#elifndef Y\n#elifndef X\n" * 0 + "#elifdef X\n" * 20000 + "#endif\n",
+        "binary-chain-init-20000": "int x = " + "1+" * 20000 + "1;\n",
         "if-nest": "#if 1\n" * n + "#endif\n" * n,
         "if0-nest": "#if 0\n" * n + "#endif\n" * n,
         "if-open-5000": "#if 1\n" * n,
@@ -391,6 +462,8 @@ def edge_inputs(tier):
         "block-comment-stars": "/" + "*/" * n + "\n",
         "backslash-lines": "int x = 1" + "\\\n" * n + ";\n",
     }
+    if tier == "thorough":
+        deep["error-lines-40000"] = "#error x\n" * 40000
     for k, v in deep.items():
         add("deep-" + k, v)
     return E
@@ -725,6 +798,98 @@ def role_jobs(work):
 
 
 # ---------------------------------------------------------------------------------------
+# ExprEdge: operator x operand-class expressions in every context that evaluates.  Cases cannot
+# interfere (each has its own names), so a context is replayed in batches; a batch that dies is
+# bisected down to the single expressions.
+OPERAND = {"i0": "0", "i1": "1", "im1": "(-1)", "intmin": "(-2147483647-1)", "intmax": "2147483647",
+           "llmin": "(-9223372036854775807-1)", "r0": "0.0", "r05": "0.5", "rm09": "(-0.9)", "r1e308": "1e308",
+           "rdenorm": "1e-320", "nan": "(0.0/0.0)", "true": "true", "false": "false", "chr": "'a'", "chr0": "'\\0'",
+           "nullptr": "nullptr", "str": "\"s\"", "undef": "UNDEF_NAME", "sizeof": "sizeof(int)"}
+OPSPELL = {"mul": "*", "div": "/", "mod": "%", "add": "+", "sub": "-", "or": "|", "xor": "^", "and": "&", "oror": "||",
+           "andand": "&&", "eq": "==", "ne": "!=", "le": "<=", "ge": ">=", "cmp3": "<=>", "lt": "<", "gt": ">", "shl": "<<",
+           "shr": ">>", "comma": ",", "not": "!", "compl": "~", "neg": "-", "pos": "+"}
+EXPR_CONTEXTS = ["if", "elif", "static_assert", "array", "enum", "tmplarg", "defarg", "D", "macro-if", "define"]
+EXPR_BATCH = 250
+UB_HAZARDS = ("overflow", "shift-count-out-of-range", "quotient-overflow")
+
+
+def expr_text(rec):
+    l = OPERAND[rec["l"]]
+    if rec["op"] in ("not", "compl", "neg", "pos"):
+        return "%s %s" % (OPSPELL[rec["op"]], l)
+    r = OPERAND[rec["r"]]
+    if rec["op"] == "cond":
+        return "%s ? 2 : %s" % (l, r)
+    if rec["op"] == "comma":
+        return "(%s , %s)" % (l, r)
+    return "%s %s %s" % (l, OPSPELL[rec["op"]], r)
+
+
+def expr_case(context, k, e):
+    """(source text, extra argv) of case number k."""
+    if context == "if":
+        return "#if %s\nint c%d;\n#endif\n" % (e, k), []
+    if context == "elif":
+        return "#if 0\n#elif %s\nint c%d;\n#endif\n" % (e, k), []
+    if context == "static_assert":
+        return "static_assert(%s, \"m\");\n" % e, []
+    if context == "array":
+        return "struct SA%d {\n__published:\n  int m[%s];\n};\nextern int ga%d[%s];\n" % (k, e, k, e), []
+    if context == "enum":
+        return "struct SE%d {\n__published:\n  enum En { V = %s, W };\n};\n" % (k, e), []
+    if context == "tmplarg":
+        return "TA<(%s)> ta%d;\n" % (e, k), []
+    if context == "defarg":
+        return "struct SD%d {\n__published:\n  int f(int a = %s);\n};\n" % (k, e), []
+    if context == "D":
+        return "#if V%d\nint c%d;\n#endif\nint d%d = V%d;\n" % (k, k, k, k), ["-D", "V%d=%s" % (k, e)]
+    if context == "macro-if":
+        return "#define MI%d (%s)\n#if MI%d\nint c%d;\n#endif\n" % (k, e, k, k), []
+    if context == "define":
+        return "#define MD%d (%s)\n" % (k, e), []
+    raise ValueError(context)
+
+
+def expr_job(context, cases, tool, work, tag, kind=None):
+    """One tool run over `cases` = [(k, rec)]."""
+    parts, argv = (["template<long long N> struct TA {};\n"] if context == "tmplarg" else []), []
+    for k, rec in cases:
+        t, a = expr_case(context, k, expr_text(rec))
+        parts.append(t)
+        argv += a
+    j = Job()
+    j.name = "expr:%s:%s" % (context, (expr_text(cases[0][1]) if len(cases) == 1 else "%d expressions, hazard %s" % (len(cases), cases[0][1]["hz"])))
+    j.mode, j.text, j.extra, j.files = "expr", "".join(parts), {}, {"t.h": "".join(parts)}
+    j.tool = "parse_file" if tool == "pf" else "interrogate"
+    j.req = [] if tool == "pf" else ["oc", "od"]
+    j.args = ([] if tool == "pf" else ["-oc", "o.cxx", "-od", "o.in", "-module", "m", "-library", "l", "-python-native"]) + argv + ["t.h"]
+    j.unreadable, j.nfiles, j.role, j.expect_err, j.env, j.kind = False, 1, "command-line", False, None, kind
+    hz = {rec["hz"] for k, rec in cases}
+    j.classes = ["C15-const-arith-ub"] if hz <= set(UB_HAZARDS) else []
+    j.dir = os.path.join(work, "x%s" % tag)
+    j.jid = -1
+    return j
+
+
+def expr_bisect(context, cases, tool, work, tag, kind, default_kind, found, budget):
+    """Run the batch; when it dies (signal / hang / sanitizer) split it until single expressions remain.
+    Returns the jobs that were run; `found` collects (job, verdict) of the smallest failing batches."""
+    j = execute(expr_job(context, cases, tool, work, tag, kind), default_kind)
+    out = [j]
+    v = verdict(j)
+    if v is None:
+        return out
+    if v[0] not in ("signal", "hang", "sanitizer") or len(cases) == 1 or budget[0] <= 0:
+        found.append((j, v, cases))
+        return out
+    budget[0] -= 1
+    half = len(cases) // 2
+    out += expr_bisect(context, cases[:half], tool, work, tag + "a", kind, default_kind, found, budget)
+    out += expr_bisect(context, cases[half:], tool, work, tag + "b", kind, default_kind, found, budget)
+    return out
+
+
+# ---------------------------------------------------------------------------------------
 def lex_coverage(recs):
     modes, trans, eof = set(), set(), set()
     for r in recs:
@@ -792,6 +957,14 @@ def _run(ctx, tier, kind, work, phase, t0):
         raise MachineryError("LexModesIf: transitions on no dumped path %s, modes no input ends in %s" % (imissing[:8], sorted(imodes - ieof)))
     ctx.notes["lexmodes_if"] = dict(inputs=len(irecs), modes=len(imodes), symbols=len(SYMIF), transitions_on_dumped_paths=len(itrans),
                                     eof_modes=len(ieof), max_len=imax, modes_first_reached_at_max_len=sorted(ifront))
+    # operator x operand-class expressions of the constant evaluator
+    edump = os.path.join(work, "expredge.ndjson")
+    ee = tlc.run("ExprEdgeMC", "ExprEdge", env={"VERIF_DUMP": edump}, timeout=600, workers=1)
+    ctx.add_tlc(ee)
+    tlc.must_ok(ee, "ExprEdge")
+    erecs = tlc.read_dump(edump)
+    if len(erecs) < 1000:
+        raise MachineryError("ExprEdge dumped %d expressions" % len(erecs))
     phase["tlc"] = round(time.time() - t0, 1)
 
     # ---- 2. inputs --------------------------------------------------------------------------
@@ -822,7 +995,7 @@ def _run(ctx, tier, kind, work, phase, t0):
             return ["pf"] + (["ig"] if idx % 8 == 0 else []) + (["inc"] if idx % 32 == 1 else []) + \
                 (["N"] if idx % 32 == 2 else []) + (["D"] if idx % 32 == 3 else [])
         m = ["pf"]
-        if idx % 3 == 0:
+        if idx % 4 == 0:
             m.append("ig")
         if idx % 12 == 1:
             m.append("inc")
@@ -868,7 +1041,7 @@ def _run(ctx, tier, kind, work, phase, t0):
         j.jid = len(jobs)
         j.dir = os.path.join(work, "j%06d" % j.jid)
         jobs.append(j)
-    ctx.notes["inputs"] = dict(length_inputs=len(lens), length_runs=len(ljobs), iflex_texts=len(irecs), iflex_inputs=len(if_inputs), role_runs=len(roles),
+    ctx.notes["inputs"] = dict(expredge_expressions=len(erecs), expredge_cases=len(erecs) * len(EXPR_CONTEXTS), length_inputs=len(lens), length_runs=len(ljobs), iflex_texts=len(irecs), iflex_inputs=len(if_inputs), role_runs=len(roles),
                                lexmodes_dumped=len(recs), lexmodes=len(lex_inputs), edge_cases=len(edges), runs=len(jobs))
     ctx.cov["rule"] = (
         "inputs = every LexModes state TLC keeps (one per VIEW value = mode path) rendered under its prelude + the fixed "
@@ -878,8 +1051,29 @@ def _run(ctx, tier, kind, work, phase, t0):
         "#define / #if-at-EOF) context; + the file-role cases (erroneous text x role of the file x tool); non-trivial = the input leaves the scanner's plain code mode or is "
         "an edge case; distinct = distinct (input bytes, feeding mode)")
 
+    # ExprEdge batches: per (context, hazard group) so that the expressions with arithmetic the
+    # sanitizer objects to (a known class) never share a run with the others
+    eplan = []
+    ordered = sorted(enumerate(erecs), key=lambda kr: (kr[1]["hz"] in UB_HAZARDS, kr[1]["hz"], kr[0]))
+    groups = [[kr for kr in ordered if kr[1]["hz"] not in UB_HAZARDS], [kr for kr in ordered if kr[1]["hz"] in UB_HAZARDS]]
+    for context in EXPR_CONTEXTS:
+        for g in groups:
+            for b in range(0, len(g), EXPR_BATCH):
+                cases = g[b:b + EXPR_BATCH]
+                for tool in ("pf", "ig"):
+                    eplan.append((context, cases, tool, None))
+                if kind != "asan" and (b // EXPR_BATCH) % 2 == 0:
+                    eplan.append((context, cases, "pf", "asan"))      # sanitizer sample in the quick tier
+    efound = []
+
+    def erun(item):
+        n, (context, cases, tool, k) = item
+        return expr_bisect(context, cases, tool, work, "%04d" % n, k, kind, efound, [24])
+
     # ---- 3. runs -----------------------------------------------------------------------------
     t1 = time.time()
+    ejobs = [j for js in run.pmap(erun, list(enumerate(eplan))) for j in js]
+    phase["expredge"] = round(time.time() - t1, 1)
     # long-running edge cases first so that they overlap with the mass of tiny ones
     order = sorted(jobs, key=lambda j: (not j.classes, -len(j.text)))
     run.pmap(lambda j: execute(j, kind), order)
@@ -893,6 +1087,16 @@ def _run(ctx, tier, kind, work, phase, t0):
     # (when the first 32 time out again the hang is systematic: the rest keep their first verdict)
     ctx.notes["timeouts_first_pass"] = len(late)
     phase["runs"] = round(time.time() - t1, 1)
+    # ExprEdge: only the smallest failing batches are judged as cases; every run is a monitor record
+    reported = {id(j) for j, v, cases in efound}
+    for j in ejobs:
+        j.jid = len(jobs)
+        if id(j) not in reported and verdict(j) is not None:
+            j.res = dict(j.res, superseded=True)
+        jobs.append(j)
+    ctx.notes["expredge"] = dict(expressions=len(erecs), contexts=EXPR_CONTEXTS, batch=EXPR_BATCH, runs=len(ejobs),
+                                 by_hazard={h: sum(1 for r in erecs if r["hz"] == h) for h in sorted({r["hz"] for r in erecs})},
+                                 failing_smallest_batches=len(efound))
     bad, good = [], []
     kinds = {}
     for j in jobs:
@@ -900,6 +1104,8 @@ def _run(ctx, tier, kind, work, phase, t0):
         if v is None:
             good.append(j)
             continue
+        if j.res.get("superseded"):
+            continue            # a batch that was split: its halves are judged instead
         bad.append((j, v))
         kinds[v[0]] = kinds.get(v[0], 0) + 1
         ctx.violation("%s as %s: %s [%s]" % (j.name[:80], j.mode, v[1], j.res["stderr"].strip().split("\n")[-1][:120]),
